@@ -616,6 +616,21 @@ func c12scripts() []c12script {
 			h.await(13, c12Answer)
 			return [3]bool{false, true, false}
 		}},
+		{"terminate-behind-a-full-mailbox", nil, func(ch *c12child, h *c12raw, rng *hx.Rng) [3]bool {
+			// one burst: slow requests, terminate, then more requests than the mailbox holds — whoever
+			// forwards them must not hold a lock the terminate needs
+			var b []byte
+			for i := 0; i < 6; i++ {
+				b = append(b, c12bytes(net.Call, ch.svc, 1, 2, uint32(101+2*i), c12le32(1))...)
+			}
+			b = append(b, c12bytes(net.Call, ch.svc, 1, 3, 201, c12le32(1))...)
+			for i := 0; i < 16; i++ {
+				b = append(b, c12bytes(net.Call, ch.svc, 1, 80, uint32(301+2*i), nil)...)
+			}
+			h.write(b, time.Second)
+			h.await(201, c12Answer)
+			return [3]bool{false, true, false}
+		}},
 		{"unregister-generic-service", nil, func(ch *c12child, h *c12raw, rng *hx.Rng) [3]bool {
 			h.writeFrame(net.Call, 1, 1, 0, 11, c12args(1, 107, 5))
 			h.writeFrame(net.Call, 1, 1, 103, 13, c12le32(ch.svc))
